@@ -19,7 +19,17 @@ func c14Service(tag string) map[string]interface{} {
 	if verifrt.Choose(tag+"-percent", 2) == 1 {
 		ep = "https://example.com/my%20hub/" + verifrt.AnyAtom(tag+"-ep") // percent-escaped character in the URI
 	}
-	return map[string]interface{}{"id": verifrt.AnyAtom(tag + "-id"), "type": "svc", "serviceEndpoint": ep}
+	svc := map[string]interface{}{"id": verifrt.AnyAtom(tag + "-id"), "type": "svc", "serviceEndpoint": ep}
+	switch verifrt.Choose(tag+"-further-members", 3) { // services may carry further members (DIDComm style)
+	case 1:
+		svc["priority"] = 0
+		svc["routingKeys"] = []interface{}{"did:key:" + verifrt.AnyAtom(tag+"-routing")}
+	case 2:
+		svc["recipientKeys"] = []interface{}{"did:key:" + verifrt.AnyAtom(tag+"-recipient")}
+		svc["accept"] = []interface{}{"didcomm/v2"}
+		svc["properties"] = map[string]interface{}{"note": nil}
+	}
+	return svc
 }
 
 func mustJSON(v interface{}) string {
